@@ -345,6 +345,15 @@ func (e *Engine) Run(t *core.Tape, cfg *core.Config, st *core.Stats) *core.Viola
 			if v := e.postCancel(r.h, where, desc); v != nil {
 				return v
 			}
+		} else if r.out.TopError != "" && at%4 == 0 {
+			// the error value that reached the Go caller stays what it is while a second chunk (with contained
+			// errors of its own) runs on the same state
+			if v := e.postError(r.h, where, desc); v != nil {
+				return v
+			}
+			if d := r.h.KeptErrorChanged(); d != "" {
+				return mk("go-error-value-changed", "%s", d)
+			}
 		}
 		return nil
 	}
@@ -431,6 +440,27 @@ func violClass(s string) string {
 		return s[:i]
 	}
 	return "structural"
+}
+
+// postError runs the probe chunk on a state whose first chunk ended with an error.
+func (e *Engine) postError(h *hostapi.Host, where string, desc func() string) *core.Violation {
+	if postProto == nil {
+		p, err := hostapi.Compile(postProbe)
+		if err != nil {
+			panic(err)
+		}
+		postProto = p
+	}
+	n0 := len(h.Trace)
+	h.Kind = hostapi.VNone
+	out := h.RunProto(postProto)
+	got := strings.Join(h.Trace[n0:], "|")
+	want := "E:'post',2|E:'post2',false,'PX'|E:'post3',2,10"
+	if out.Escaped != "" || out.TopError != "" || got != want {
+		return core.Violationf("state-unusable-after-error", "%s: after the failed call returned, a second chunk run on the same state gave trace %q error %q escaped %q, want %q\n%s",
+			where, got, out.TopError, out.Escaped, want, desc())
+	}
+	return nil
 }
 
 func (e *Engine) postCancel(h *hostapi.Host, where string, desc func() string) *core.Violation {
